@@ -267,6 +267,11 @@ def build_T18(tree):
     if not (len(cached) == 1 and isinstance(cached[0], ast.If) and _norm(cached[0].test) == 'coordinate_typenotinself._graphic_data'
             and isinstance(cached[0].body[0], ast.Raise)):
         raise Unsupported('get_graphic_data: cached branch changed shape')
+    rets = [st for st in gb if isinstance(st, ast.Return)]
+    if len(rets) != 1 or _norm(rets[0].value) not in ('list(self._graphic_data[coordinate_type])', 'self._graphic_data[coordinate_type]'):
+        raise Unsupported('get_graphic_data no longer returns (a list of) self._graphic_data[coordinate_type]')
+    out.append('/-- `get_graphic_data` hands out a NEW list of the cached arrays (not the cached list itself) -/\n'
+               'def graphicDataReturnsNewList : Bool := ' + ('true' if _norm(rets[0].value).startswith('list(') else 'false'))
     dec = top[0].orelse
     shas.append(span_sha(dec))
     split_expr = {}
@@ -414,10 +419,24 @@ def build_T18(tree):
     cb = strip_doc(gc.body)
     shas.append(span_sha(cb))
     blk = []
+    via_ggd = False
     for st in _fresh(cb):
+        if isinstance(st, ast.Assign) and _norm(st.targets[0]) == 'coordinate_type':
+            if _norm(st.value) != 'AnnotationCoordinateTypeValues(coordinate_type)':
+                raise Unsupported('get_coordinates: coordinate_type is no longer normalised by the enum')
+            continue
+        if isinstance(st, ast.If) and _norm(st.test) == 'coordinate_typenotinself._graphic_data':
+            # nothing cached under the requested type: the data are decoded (or the type refused) by get_graphic_data
+            if not (len(st.body) == 1 and isinstance(st.body[0], ast.Expr) and _norm(st.body[0].value) == 'self.get_graphic_data(coordinate_type)'
+                    and not st.orelse):
+                raise Unsupported('get_coordinates no longer decodes through self.get_graphic_data(coordinate_type)')
+            via_ggd = True
+            continue
         if isinstance(st, ast.Assign) and _norm(st.targets[0]) == 'graphic_data':
-            if _norm(st.value) != 'self.get_graphic_data(coordinate_type)':
-                raise Unsupported('get_coordinates no longer reads self.get_graphic_data(coordinate_type)')
+            if _norm(st.value) == 'self.get_graphic_data(coordinate_type)':
+                via_ggd = True
+            elif _norm(st.value) != 'self._graphic_data[coordinate_type]' or not via_ggd:
+                raise Unsupported('get_coordinates no longer reads the graphic data decoded by self.get_graphic_data(coordinate_type)')
             continue
         if isinstance(st, ast.Return):
             if not (isinstance(st.value, ast.Subscript) and _norm(st.value.value) == 'graphic_data'):
